@@ -445,7 +445,10 @@ def build_classes(schema, module=None, hybrids=None):
         elif k == "ref":
             cls = xo.Ref[out[ty["to"]]]
         elif k == "uref":
-            cls = type(ty["name"], (xo.UnionRef,), {"_reftypes": [out[m] for m in ty["members"]]})
+            data = {"_reftypes": [out[m] for m in ty["members"]]}
+            if ty.get("depends"):
+                data["_depends_on"] = [out[d] for d in ty["depends"]]  # declared dependencies of a union (classes its methods use)
+            cls = type(ty["name"], (xo.UnionRef,), data)
         else:
             raise ValueError(k)
         if module is not None and k in ("struct", "array", "uref"):
